@@ -53,9 +53,15 @@ def K2(i):
     return rs("t/k", [["string", "a"], ["string", "listb"]], ["'plain%d'" % i, "'lb%d'" % i], _source="'src-k2'")
 
 
+def A_unset(i, which):  # A with one or both timestamps unset
+    ts = "None" if which in ("ts", "both") else "dt(2020,1,%d,tz=UTC)" % (i % 27 + 1)
+    seen = "None" if which in ("seen", "both") else "dt(2021,2,%d,1,2,3,tz=off(2))" % (i % 27 + 1)
+    return rs("t/a", [["string", "s"], ["varint", "n"], ["datetime", "ts"], ["datetime", "seen"]], ["'a%d'" % i, str(i), ts, seen], _source="'src-a'")
+
+
 GOOD = {
     "G6": [K1(60), K2(61), K1(62), K2(63), B(64)],
-    "G4": [A(40), A_v2(41), A(42), A_v2(43)],
+    "G4": [A(40), A_v2(41), A(42), A_v2(43), A_unset(44, "seen"), A_unset(45, "both"), A_unset(46, "ts")],
     "G5": [B(50), A(51), B(52)],
     "G1": [A(i) if i % 2 == 0 else B(i) for i in range(8)],
     "G2": [N(20), A(21), N(22)],
